@@ -650,4 +650,23 @@ example : (Packet.unpack (Packet.fresh (some 1) (some 4294967296) Option.none) w
 example : (Packet.unpack (Packet.fresh (some 1) Option.none (some 3)) wPCM true).2 = .error .generic := by rfl
 example : (Packet.unpack (Packet.fresh (some 1) Option.none Option.none) [0, 0, 0x10, 0, 1, 2, 3] false).2 = .ok () := by rfl
 
+/-- joint witnesses for the helper lemmas above.  `Ipts_unpack_short`: 7 bytes for an RTC stamp.  `PCMFrame_packed_unpack_iff`:
+    the packed-mode prototype of `wPCM` (PTP, 32-bit alignment) satisfies the four hypotheses; a 12-byte slice is accepted,
+    an 11-byte one refused, and with `extract_sync_sfid` 18 / 17 bytes.  `decFrames_error_iff`: on `wPCM` with a slice length
+    of 11 the loop raises at once.  `detect_error_iff`: both sides on a 2^32 sync word. -/
+example : (Ipts.rtc 0 ≠ .none) ∧ ([1, 2, 3, 4, 5, 6, 7] : Bytes).length ≠ 8 ∧
+    Ipts.unpack (.rtc 0) [1, 2, 3, 4, 5, 6, 7] = .error .struct := ⟨by decide, by decide, rfl⟩
+example : (1 < 2) ∧ (Frame.fresh (some 1) false 1).ipts ≠ .none ∧ (Frame.fresh (some 1) false 1).throughput = false ∧
+    (Frame.fresh (some 1) false 1).alignment = 1 ∧ pcmNeed 1 false = 12 ∧ pcmNeed 1 true = 18 ∧ pcmNeed 0 false = 10 ∧
+    (Frame.unpack (Frame.fresh (some 1) false 1) (slice wPCM 4 16) false).2 = .ok () ∧
+    (Frame.unpack (Frame.fresh (some 1) false 1) (slice wPCM 4 15) false).2 = .error .struct ∧
+    (Frame.unpack (Frame.fresh (some 1) false 1) (slice wPCM 4 22) true).2 = .ok () ∧
+    (Frame.unpack (Frame.fresh (some 1) false 1) (slice wPCM 4 21) true).2 = .error .struct :=
+  ⟨by decide, fresh_ipts_ne_none _ _, rfl, rfl, rfl, rfl, rfl, rfl, rfl, rfl, rfl⟩
+example : wPCM.length - 4 + 1 ≤ wPCM.length + 1 ∧
+    decFrames (Frame.fresh (some 1) false 1) false 11 wPCM (wPCM.length + 1) 4 = .error .generic ∧
+    4 + 11 ≤ wPCM.length ∧ 11 < pcmNeed 1 false := ⟨by decide, rfl, by decide, by decide⟩
+example : detect (Packet.fresh (some 1) (some 4294967296) Option.none) wPCM 4 = .error .struct ∧
+    (Packet.fresh (some 1) (some 4294967296) Option.none).syncword = some 4294967296 := ⟨rfl, rfl⟩
+
 end Acra.Props.C08
